@@ -36,6 +36,16 @@ CHECKS["C09"] = dict(
     technique="CrossHair+z3 inductive step lemmas (hidden-prefix stack, oracle memo) vs pickle._Unpickler; program-level native replay",
     design="§1.3, §4 C09")
 
+CHECKS["C15"] = dict(
+    text="Bounded symbolic execution of the real ConstantOpcode.new priority search, every validate/encode_body, "
+         "_encode_python_obj and the injection helpers, read back by CPython's pure-Python unpickler and pickletools.genops: "
+         "every int (unbounded; decimal rendering cut and checked on samples), every bytes of length <=3, lengths 250..260 across the "
+         "1-byte/4-byte switch, every constructible opcode class with symbolic integer arguments are Confirmed over all paths; "
+         "str of length <=1 (quick) / <=2 (thorough) is a solver search that is not expected to exhaust; text classes, floats, "
+         "containers are pinned samples.",
+    technique="CrossHair+z3 over symbolic constants (ints unbounded, bytes<=3) with VM/genops read-back; known-findings list for recorded encoder defects",
+    design="§4 C15")
+
 NOT_APPLICABLE = {
     "C16": "every observable sits behind zipfile/zlib/torch C-level I/O; symbolic inputs are realised at the first call so the solver has nothing to decide (DESIGN §5); the pickle-level half is covered by C08",
 }
